@@ -173,6 +173,66 @@ func genC13(c *Ctx) {
 		}
 		c.Em.Emit(Rec{Case: fmt.Sprintf("C13 %d %s plain", start, enc), Impl: pimpl, Src: plain, NT: len(steps) > 1, Tags: []string{"plain"}})
 	}
+	// ---- shared prefixes: an Either bound to a name and extended twice; every extension and the prefix itself must
+	// report their own outcome (a step must not change the Either it was applied to)
+	randSteps := func(k int) []string {
+		out := []string{}
+		for j := 0; j < k; j++ {
+			switch c.Rng.Intn(8) {
+			case 0, 1:
+				out = append(out, fmt.Sprintf("add:%d", c.Rng.Intn(5)))
+			case 2:
+				out = append(out, fmt.Sprintf("mul:%d", c.Rng.Intn(4)))
+			case 3:
+				out = append(out, fmt.Sprintf("fdiv:%d", c.Rng.Intn(3)))
+			case 4:
+				out = append(out, "L2")
+			case 5:
+				out = append(out, "neg")
+			case 6:
+				out = append(out, "Lid")
+			default:
+				out = append(out, "Lraise:"+c.Rng.Pick(c13ErrKinds))
+			}
+		}
+		return out
+	}
+	for i := 0; i < n/4; i++ {
+		start := c.Rng.Intn(9) - 2
+		pre, sa, sb := randSteps(c.Rng.Intn(3)), randSteps(1+c.Rng.Intn(3)), randSteps(1+c.Rng.Intn(3))
+		if !c.Mine() {
+			continue
+		}
+		chain := func(base string, steps []string) string {
+			for _, s := range steps {
+				base = "(" + base + c13StepSrc(s) + ")"
+			}
+			return base
+		}
+		st := fmt.Sprint(start)
+		if start < 0 {
+			st = fmt.Sprintf("(%d)", start)
+		}
+		src := "base := " + chain(st+".try", pre) + "\na := " + chain("base", sa) + "\nb := " + chain("base", sb) + "\n[a.A, b.A, base.A]\n"
+		o := c.It.Run(src, "")
+		parts := []string{"?", "?", "?"}
+		if arr, ok := o.Obj.(*object.PanArr); ok && o.Kind == "val" && len(arr.Elems) == 3 {
+			for k := range parts {
+				parts[k] = c13Canon(arr.Elems[k])
+			}
+		} else {
+			parts[0] = o.Canon()
+		}
+		enc := func(steps []string) string {
+			if len(steps) == 0 {
+				return "-"
+			}
+			return strings.Join(steps, ";")
+		}
+		for k, steps := range [][]string{append(append([]string{}, pre...), sa...), append(append([]string{}, pre...), sb...), pre} {
+			c.Em.Emit(Rec{Case: fmt.Sprintf("C13 %d %s A", start, enc(steps)), Impl: parts[k], Src: src + fmt.Sprintf("# element %d", k), NT: true, Tags: []string{"shared-prefix"}})
+		}
+	}
 	// ---- property-call shapes through the proxy (the known findings live here)
 	shapes := []struct{ name, recv, call string }{
 		{"callable property", "{f: {|x, y| [x.a, y]}, a: 1}", ".f(2)"},
